@@ -255,3 +255,63 @@ theorem inv_docs_served (cd : IdxCodec) (hcd : cd.ExtFree) (st : St) (bs : List 
     exact ⟨x, hx, rfl⟩
 
 end SV.WPath
+
+namespace SV.WPath
+
+/-- the order in which the blocks reach `DocBlocks` does not matter: whatever list of tasks `es` the index was built
+from, a task whose docs offset yields the docs block of its documents serves them, provided the IDs are distinct -/
+theorem served_of_mem (cd : IdxCodec) (docs : Bytes) (es : List Entry) (hnd : (idsOf cd es).Nodup) (e : Entry)
+    (he : e ∈ es) (blk : Bytes) (hread : readBlockAt docs e.pos = some blk) (ds : List LDoc)
+    (hdocs : cd.docsRaw blk = some (rawDocs ds)) (hmeta : cd.metaDocs e.blk = metasOf ds)
+    (hsz : ∀ x ∈ ds, 0 < x.body.length ∧ x.body.length < 256 ^ 4) :
+    ∀ x ∈ ds, fetch cd docs (buildIndex cd es) x.id = some x.body ∧
+      ∀ t ∈ x.tokens, x.id ∈ search (buildIndex cd es) t := by
+  intro x hx
+  obtain ⟨E1, E2, hes⟩ := List.append_of_mem he
+  rw [buildIndex_eq cd es hnd]
+  obtain ⟨o, ho⟩ := mem_docOffsets ds 0 x hx
+  constructor
+  · have hpair : (x.id, (E1.length, o)) ∈ pairsFrom cd 0 es := by
+      rw [hes, pairsFrom_append]
+      simp only [pairsFrom, Nat.zero_add, List.mem_append]
+      refine .inr (.inl ?_)
+      rw [hmeta, docPositions_metasOf _ ds (fun y hy => (hsz y hy).1)]
+      simp only [List.mem_map]
+      exact ⟨(x, o), ho, rfl⟩
+    have hlook : lookupPos (pairsFrom cd 0 es) x.id = some (E1.length, o) :=
+      lookupPos_mem _ _ _ (by rw [pairsFrom_ids]; exact hnd) hpair
+    have hblock : (es.map (·.pos))[E1.length]? = some e.pos := by rw [hes]; simp
+    have hdoc : docAt (rawDocs ds) o = some x.body := by
+      have := docAt_docOffsets ds (fun y hy => (hsz y hy).2) [] 0 rfl (x, o) ho
+      simpa using this
+    simp only [fetch, hlook, hblock, hread, hdocs, hdoc]
+  · intro t ht
+    simp only [search, List.mem_map, List.mem_filter, decide_eq_true_eq]
+    refine ⟨(t, x.id), ⟨?_, rfl⟩, rfl⟩
+    simp only [postingsOf, List.mem_flatMap, List.mem_map]
+    refine ⟨e, he, ⟨x.id, x.body.length, x.tokens⟩, ?_, t, ht, rfl⟩
+    rw [hmeta]; simp only [metasOf, List.mem_map]
+    exact ⟨x, hx, rfl⟩
+
+/-- documents of a complete bulk are served by the index built from the tasks in **any order** -/
+theorem inv_docs_served_perm (cd : IdxCodec) (hcd : cd.ExtFree) (st : St) (bs : List (Blk × Blk)) (junk torn : Bytes)
+    (hinv : InvD st bs junk torn) (hnd : (bulkIDs cd bs).Nodup) (es : List Entry) (hperm : es.Perm st.idx)
+    (d m : Blk) (hb : (d, m) ∈ bs) (ds : List LDoc)
+    (hdocs : cd.docsRaw (enc d) = some (rawDocs ds)) (hmeta : cd.metaDocs (enc m) = metasOf ds)
+    (hsz : ∀ x ∈ ds, 0 < x.body.length ∧ x.body.length < 256 ^ 4) :
+    ∀ x ∈ ds, fetch cd st.docs (buildIndex cd es) x.id = some x.body ∧
+      ∀ t ∈ x.tokens, x.id ∈ search (buildIndex cd es) t := by
+  obtain ⟨t, ht, h1, e1, e2, h2⟩ := mem_stamped_of_mem bs 0 d m hb
+  have hids : (idsOf cd es).Nodup := by
+    have hp : (idsOf cd es).Perm (idsOf cd st.idx) := List.Perm.flatMap_right _ hperm
+    rw [hp.nodup_iff, hinv.idx, idsOf_entriesOf cd hcd]; exact hnd
+  have he : (⟨enc t.2.1, t.2.2⟩ : Entry) ∈ es := by
+    rw [hperm.mem_iff, hinv.idx, entriesOf, List.mem_map]; exact ⟨t, ht, rfl⟩
+  have hread : readBlockAt st.docs t.2.2 = some (enc d) := by
+    have := readBlockAt_stamped bs hinv.wf [] junk 0 rfl t ht
+    rw [h1] at this
+    simpa [hinv.docs] using this
+  exact served_of_mem cd st.docs es hids ⟨enc t.2.1, t.2.2⟩ he (enc d) hread ds hdocs
+    (by simp only [h2]; rw [hcd m, hmeta]) hsz
+
+end SV.WPath
